@@ -383,6 +383,9 @@ func (x *Exec) zeroObject(s *State, ref Term, t types.Type) {
 	for _, srt := range x.E.memSorts(t) {
 		h := x.heap(s, srt)
 		z := Term{fmt.Sprintf("((as const %s) %s)", ObjSort(srt), zeroOf(srt).S), ObjSort(srt)}
+		if srt == SStr {
+			z = Term{"sx.emptyobj", ObjSort(srt)}
+		}
 		s.Heaps[srt] = x.C.Define("H", Store(h, ref, z))
 	}
 }
